@@ -1,7 +1,110 @@
 import Cherab.Drv.Proto
-open Cherab.Drv
+import Cherab.Model.PassiveEmission
+import Cherab.Gen.Constants
+import Cherab.Gen.PassiveFlags
+open Cherab.Drv Cherab.Passive
+open Cherab.Gen
 
-/-- C03 driver: not yet implemented (echo) -/
+/-!
+C03 driver.  The atomic-data provider and the Gaunt factor are the *mock* functions of harness/props/c03.py, written
+with the same operations in the same order (sums of dyadic multiples are exact, so both sides compute the same
+doubles):
+
+  rate(kind, e, c, de, dc, tr)(ne, te, td) = s0 * keyFactor * (1 + ne*a + te*b + td*d)
+  gaunt(z, te, wvl) = g0 + g1*z + g2*te + g3*wvl
+-/
+
+def keyFactor (kind e c de dc tr : Nat) : Float :=
+  1.0 + 1.0 * kind.toFloat + 0.0625 * e.toFloat + 0.001953125 * c.toFloat + 0.0001220703125 * de.toFloat
+    + 0.000003814697265625 * dc.toFloat + 0.000000476837158203125 * tr.toFloat
+
+def mockRate (s0 a b d : Float) (kf : Float) (ne te td : Float) : Float :=
+  s0 * kf * (1.0 + ne * a + te * b + td * d)
+
+def mockGaunt (g0 g1 g2 g3 : Float) (z te wvl : Float) : Float := g0 + g1 * z + g2 * te + g3 * wvl
+
+/-- parse `n` species (elem z charge dens temp) -/
+def parseSp : Nat → List String → List (Sp Float)
+  | 0, _ => []
+  | n + 1, e :: z :: c :: d :: t :: rest => ⟨pN e, pN z, pN c, pF d, pF t⟩ :: parseSp n rest
+  | _, _ => []
+
+def outCall (r : Option (Option Float)) : String :=
+  match r with
+  | none => "RuntimeError"
+  | some none => "none"
+  | some (some v) => fF v
+
+def pairs : List Float → List (Float × Float)
+  | a :: b :: t => (a, b) :: pairs t
+  | _ => []
+
+/-- split a flat list of (x, w) pairs into the rules of orders `lo … hi` -/
+def splitRules : Nat → Nat → List (Float × Float) → List (List (Float × Float))
+  | 0, _, _ => []
+  | k + 1, order, l => l.take order :: splitRules k (order + 1) (l.drop order)
+
+def bremsC (pi : Float) : Float :=
+  bremsConst Float.sqrt pi Constants.ELEMENTARY_CHARGE Constants.VACUUM_PERMITTIVITY Constants.ELECTRON_REST_MASS
+    Constants.SPEED_OF_LIGHT
+
+def expF : Float := expFactor Constants.PLANCK_CONSTANT Constants.SPEED_OF_LIGHT Constants.ELEMENTARY_CHARGE
+
+abbrev Rules := List (List (Float × Float))
+
+def step (rules : Rules) (ts : List String) : Rules × String :=
+  match ts with
+  | "rules" :: lo :: hi :: rest =>
+      let r := splitRules (pN hi + 1 - pN lo) (pN lo) (pairs (rest.map pF))
+      (r, s!"ok {r.length}")
+  | "line" :: kind :: le :: lc :: tr :: pi :: ne :: te :: s0 :: a :: b :: n :: rest =>
+      let comp := parseSp (pN n) rest
+      let k := if kind == "exc" then 0 else 1
+      let prov : Nat → Nat → Float → Float → Float := fun e c x y =>
+        mockRate (pF s0) (pF a) (pF b) 0.0 (keyFactor k e c 0 0 (pN tr)) x y 0.0
+      let r := if kind == "exc" then excitationLine (pF pi) prov comp (pF ne) (pF te) (pN le) (pN lc)
+               else recombinationLine (pF pi) prov comp (pF ne) (pF te) (pN le) (pN lc)
+      (rules, outCall r)
+  | "cx" :: le :: lc :: tr :: pi :: ne :: te :: s0 :: a :: b :: d :: n :: rest =>
+      let comp := parseSp (pN n) rest
+      -- thermal_cx_pec(donor element, donor charge, receiver element, receiver charge = lc+1, transition)
+      let prov : Nat → Nat → Float → Float → Float → Float := fun de dc x y t =>
+        mockRate (pF s0) (pF a) (pF b) (pF d) (keyFactor 2 (pN le) (pN lc + 1) de dc (pN tr)) x y t
+      (rules, outCall (thermalCXLine PassiveFlags.thermalCXDonorDensityGuard PassiveFlags.thermalCXDonorTemperatureGuard
+        (pF pi) prov comp (pF ne) (pF te) (pN le) (pN lc)))
+  | "trp" :: e :: c :: pi :: ne :: te :: mn :: mx :: m0 :: m1 :: m2 :: s0 :: a :: b :: n :: rest =>
+      let comp := parseSp (pN n) rest
+      let has : Nat → Bool := fun k => if k == 0 then pB m0 else if k == 1 then pB m1 else pB m2
+      let prov : Nat → Nat → Nat → Option (Float → Float → Float) := fun k el ch =>
+        if has k then some (fun x y => mockRate (pF s0) (pF a) (pF b) 0.0 (keyFactor (3 + k) el ch 0 0 0) x y 0.0) else none
+      (rules, outCall (totalRadiatedPower (pF pi) prov PassiveFlags.trpHydrogenIds comp (pF ne) (pF te) (pF mn) (pF mx)
+        (pN e) (pN c)))
+  | "bf" :: pi :: ne :: te :: wvl :: g0 :: g1 :: g2 :: g3 :: _n :: rest =>
+      let zs := pairs (rest.map pF)
+      (rules, fF (bremsFunction Float.sqrt Float.exp (bremsC (pF pi)) expF (mockGaunt (pF g0) (pF g1) (pF g2) (pF g3))
+        (pF ne) (pF te) (zs.map (·.1)) (zs.map (·.2)) (pF wvl)))
+  | "be" :: pi :: ne :: te :: mn :: delta :: bins :: rtol :: g0 :: g1 :: g2 :: g3 :: n :: rest =>
+      let comp := parseSp (pN n) rest
+      let r := bremsEmission Float.sqrt Float.exp (bremsC (pF pi)) expF (mockGaunt (pF g0) (pF g1) (pF g2) (pF g3))
+        (gaussQuad rules (pF rtol)) comp (pF ne) (pF te) (pF mn) (pF delta) (pN bins)
+      (rules, match r with
+        | none => "none"
+        | some [] => "empty"
+        | some l => fFs l)
+  | ["gq", rtol, a, b, k0, k1, k2, k3] =>
+      let f : Float → Float := fun x => ((pF k3 * x + pF k2) * x + pF k1) * x + pF k0
+      (rules, fF (gaussQuad rules (pF rtol) f (pF a) (pF b)))
+  | ["gaunt", pi, z, te, wvl, umin, umax, g2min, g2max, i0, i1, i2] =>
+      let ph : Float := expFactor Constants.PLANCK_CONSTANT Constants.SPEED_OF_LIGHT Constants.ELEMENTARY_CHARGE
+      let br := gauntBranch Constants.RYDBERG_CONSTANT_EV ph (pF umin) (pF umax) (pF g2min) (pF g2max) (pF z) (pF te) (pF wvl)
+      let v := gauntFactor Float.sqrt Float.log Float.log10 (fun x y => pF i0 + pF i1 * x + pF i2 * y) (pF pi)
+        Constants.EULER_GAMMA Constants.RYDBERG_CONSTANT_EV ph (pF umin) (pF umax) (pF g2min) (pF g2max)
+        (pF z) (pF te) (pF wvl)
+      (rules, s!"{br} {fF v}")
+  | ["radfn", pi, phi, mn, mx] => (rules, fF (radiationFunction (pF pi) (pF phi) (pF mn) (pF mx)))
+  | ["consts", pi] => (rules, fFs [bremsC (pF pi), expF, recip4pi (pF pi)])
+  | _ => (rules, "bad-op")
+
 def main : IO UInt32 := do
-  loop (stateless fun ts => " ".intercalate ts) (← IO.getStdin) (← IO.getStdout) ()
+  loop step (← IO.getStdin) (← IO.getStdout) []
   return 0
